@@ -15,7 +15,8 @@ Case (sx):  [prog, [timer ticks], [[iteration, front?]...], K, fuel]
   K: after K consecutive busy loop iterations (ready queue never empty) the clock has reached the next timer
      (time compression of the busy loop in which __deliver_cancellation re-arms itself every turn).
 Output: [[events], outcome, task.cancelling()]; events [0,id,t] start, [1,id,t] done, [2,id,t,cancel_called,
-  cancelled_caught,cancelling,swallowed-or-TimeoutError-raised,exc-class-given-to-__exit__], [3,id,t,exc] caught.
+  cancelled_caught,cancelling,swallowed-or-TimeoutError-raised,exc-class-given-to-__exit__], [3,id,t,exc] caught,
+  [4,t] the controller's task.cancel() returned True.
 """
 from __future__ import annotations
 
@@ -113,8 +114,30 @@ def params():
         if not ok:
             raise runner.TranslateError("unrecognised loop in CancelScope.__exit__")
         flag = True
+    # second flag: does __uncancel_task fall back on the CancelledError message when the cancelling() count test fails?
+    ut = None
+    for cls in tree.body:
+        if isinstance(cls, ast.ClassDef) and cls.name == "CancelScope":
+            for it in cls.body:
+                if isinstance(it, ast.FunctionDef) and it.name == "__uncancel_task":
+                    ut = it
+    if ut is None or not ut.body or not isinstance(ut.body[-1], ast.Return):
+        raise runner.TranslateError("CancelScope.__uncancel_task: no final return")
+    rv = ut.body[-1].value
+    if isinstance(rv, ast.Constant) and rv.value is False:
+        fallback = False
+    elif (isinstance(rv, ast.Compare) and len(rv.ops) == 1 and isinstance(rv.ops[0], ast.In)
+          and isinstance(rv.left, ast.Call) and isinstance(rv.left.func, ast.Attribute)
+          and rv.left.func.attr == "__cancellation_id" and not rv.left.args
+          and isinstance(rv.comparators[0], ast.Attribute) and rv.comparators[0].attr == "args"
+          and isinstance(rv.comparators[0].value, ast.Name) and rv.comparators[0].value.id == "exc"):
+        fallback = True
+    else:
+        raise runner.TranslateError("CancelScope.__uncancel_task: unrecognised final return")
     return ("(* does CancelScope.__exit__ take back leftover cancel requests (repair of finding C13-F1)? *)\n"
-            f"Definition exit_takes_back_leftover : bool := {'true' if flag else 'false'}.\n")
+            f"Definition exit_takes_back_leftover : bool := {'true' if flag else 'false'}.\n"
+            "(* does __uncancel_task fall back on the CancelledError message (finding C13-F2 is present iff true)? *)\n"
+            f"Definition uncancel_message_fallback : bool := {'true' if fallback else 'false'}.\n")
 FUEL = 6000
 MAX_LOOP_STEPS = 3000
 
@@ -142,12 +165,19 @@ class _Loop(detloop.DetLoop):
 
         sel.select = select
 
+    def controller(self):
+        # the controller's task.cancel(); it knows (and logs) when its request was accepted
+        if self.target.cancel():
+            t = self.time() / TICK
+            assert t == int(t), t
+            self.env.events.append([4, int(t)])
+
     def _run_once(self):
         self.iterno += 1
         if self.target is not None:
             for n, front in self.turns:
                 if n == self.iterno:
-                    h = asyncio.Handle(self.target.cancel, (), self)
+                    h = asyncio.Handle(self.controller, (), self)
                     if front:
                         self._ready.appendleft(h)
                     else:
@@ -264,8 +294,9 @@ def run_raw(inp):
         env = _Env(loop, AsyncIOBackend())
         task = loop.create_task(_ex(prog, env))
         env.task = loop.target = task
+        loop.env = env
         for t in timers:
-            loop.call_at(t * TICK, task.cancel)
+            loop.call_at(t * TICK, loop.controller)
         outcome = None
         try:
             loop.run_until_complete(task)
@@ -422,8 +453,7 @@ def wrap(p, ids):
 
 def nontrivial_of(inp, out):
     evs = out[0]
-    return bool(any(e[0] == 2 and e[3] for e in evs) or any(e[0] == 3 for e in evs) or out[1] != 0
-                or ((inp[1] or inp[2]) and out[2] > 0))
+    return bool(any(e[0] == 2 and e[3] for e in evs) or any(e[0] in (3, 4) for e in evs) or out[1] != 0)
 
 
 def tags_of(p, inp, sched_tag, src):
@@ -533,8 +563,22 @@ def oracle(inp):
             return f"caught-not-called: scope {nid}"
         outermost = not any(q[0] == 6 for q in path)
         if outermost and n_ext == 0 and cancelling != 0 and not _has(prog, (10,)):
-            return (f"leftover-cancel: outermost scope {nid} exited with task.cancelling()={cancelling} "
-                    f"although nobody outside the scopes cancelled the task")
+            # the known pattern: some cancelled scope was handed something else than a CancelledError (or nothing)
+            leaky = any(x[0] == 2 and x[3] and x[7] != 1 for x in evs)
+            return (f"{'leftover-cancel' if leaky else 'leftover-cancel-after-cancelled-exit'}: outermost scope {nid} "
+                    f"exited with task.cancelling()={cancelling} although nobody outside the scopes cancelled the task")
+    # once the controller's task.cancel() was accepted, no blocking statement outside a shield completes any more
+    # (programs without try/except: nothing may swallow the CancelledError but a scope that was itself cancelled)
+    if not _has(prog, (10,)):
+        seen_ext = False
+        for e in evs:
+            if e[0] == 4:
+                seen_ext = True
+            elif seen_ext and e[0] == 1 and nodes[e[1]][0][0] in (2, 3) and not any(q[0] == 7 for q in nodes[e[1]][1]):
+                swallowed = [x[1] for x in evs if x[0] == 2 and x[6]]
+                kind = "lost-external-cancel" if swallowed else "lost-cancel"
+                return (f"{kind}: statement {e[1]} completed at tick {e[2]} after the controller's task.cancel() had "
+                        f"been accepted (scopes that swallowed / raised TimeoutError: {swallowed})")
     # a sleep that started when an enclosing (not shield-separated) scope's deadline had been reached, or that was
     # still running strictly after it, must not complete (programs without reschedule)
     if not _has(prog, (9,)):
